@@ -34,6 +34,10 @@ func c08Round2(c *Ctx) {
 	c12RuleInPlace = "R08h"
 	c12InPlace(c)
 	c12RuleInPlace = "R12e"
+	c.Rule("R08j", "the MSI upload tar names the signature streams exactly as the tar digest skips them: msiDecodeName passes their code units through", 1)
+	for _, f := range msiNamesPassControlChars(p, nil) {
+		c.Check(f.OK, "R08j", f.Key, f.Pos, "", f.Detail)
+	}
 	c.Rule("R08i", "what a new Apple code signature requires of its signer comes from the new certificate or the caller, never from the signature being replaced", 1)
 	if fn := p.Func("lib/fruit/csblob.(*SignatureParams).DefaultsFromSignature"); fn == nil {
 		c.Undecided("R08i", "(*SignatureParams).DefaultsFromSignature", "-", "function not found")
